@@ -403,10 +403,12 @@ func c04OmitValueField(a *c04X, elem string) bool {
 		if tt != ptag && !isItem && !isPayload {
 			continue
 		}
-		matchedParent = true
 		for _, f := range gv.Fields(t) {
-			if f.Plan.Tag == etag && f.Plan.OmitEmpty && f.SF.Type.Kind() != reflect.Pointer {
-				return true
+			if f.Plan.Tag == etag {
+				matchedParent = true // a structure written under the parent's tag does have this element
+				if f.Plan.OmitEmpty && f.SF.Type.Kind() != reflect.Pointer {
+					return true
+				}
 			}
 		}
 	}
